@@ -47,7 +47,7 @@ func c02Oracle(res *vResult) func(h *hRunner, op *hOp, ex *vExchange, rep *vRepl
 			wantType = message.MsgTypeSessionDeletionResponse
 		case "neg":
 			switch op.Neg {
-			case "mod-unknown-seid":
+			case "mod-unknown-seid", "mod-halfway":
 				wantType = message.MsgTypeSessionModificationResponse
 			case "del-unknown-seid":
 				wantType = message.MsgTypeSessionDeletionResponse
